@@ -48,6 +48,8 @@ def check_one(name, opts, desc, aseed, stats, extra=None):
     raise Violation('C03/components-shape/' + name, '%s: shape %s, d=%d' % (tag, L.shape, d))
   if nc is not None:
     if k != nc:
+      if name in ('LMNN', 'NCA') and opts.get('init', 'auto') in ('auto', 'lda') and k < nc and E.lda_rank_short(data.X, data.y, nc):
+        raise Violation('C03/components-shape/%s/lda-rank-short' % name, '%s: %d rows, n_components=%d (scikit-learn LDA returns fewer directions)' % (tag, k, nc))
       raise Violation('C03/components-shape/' + name, '%s: %d rows, n_components=%d' % (tag, k, nc))
   elif name in ('SCML', 'SCML_Supervised'):
     if not 0 <= k <= d:
@@ -55,6 +57,8 @@ def check_one(name, opts, desc, aseed, stats, extra=None):
     if (k < d) != low_rank_warned:
       raise Violation('C03/scml-lowrank-warning/' + name, '%s: rows=%d d=%d warned=%s' % (tag, k, d, low_rank_warned))
   elif k != d:
+    if name in ('LMNN', 'NCA') and opts.get('init', 'auto') in ('auto', 'lda') and k < d and E.lda_rank_short(data.X, data.y, d):
+      raise Violation('C03/components-shape/%s/lda-rank-short' % name, '%s: %d rows, d=%d (scikit-learn LDA returns fewer directions)' % (tag, k, d))
     raise Violation('C03/components-shape/' + name, '%s: %d rows without n_components, d=%d' % (tag, k, d))
   M = np.asarray(call('C03/get_mahalanobis_matrix/' + name, est.get_mahalanobis_matrix))
   smax2 = max(sigma_max(L) ** 2, 1e-300)
